@@ -212,6 +212,7 @@ func run(c *runner.Ctx) {
 		{"first 2 transactions of a freshly built WAF", 22, b3},
 		{"transaction + WAF build/close", 12, b3},
 		{"2 transactions + WAF build/close", 3, b3},
+		{"2 threads x 2 transactions, pooled objects recycled across threads", 24, b3 - 1},
 	}
 	for si, sc := range scenarios {
 		// the scenarios are split over the workers of a variant by schedule prefix: the
@@ -247,6 +248,15 @@ func run(c *runner.Ctx) {
 			switch sc.threads {
 			case 2, 22:
 				chosen = bodies[:2]
+			case 24:
+				// each thread runs its transaction twice; the pool shim hands the object a
+				// thread has closed to whichever thread asks next
+				vrt.PoolMode = 1
+				defer func() { vrt.PoolMode = 0 }()
+				chosen = []func(){
+					func() { out[0] = outcome(wx, 0); out[0] = outcome(wx, 0) },
+					func() { out[1] = outcome(wx, 1); out[1] = outcome(wx, 1) },
+				}
 			case 3:
 				chosen = bodies
 			case 12:
@@ -289,6 +299,9 @@ func run(c *runner.Ctx) {
 							report("cross-talk", fmt.Sprintf("transaction %d under this schedule:\n%s--- alone:\n%s", i, out[i], solo[i]))
 						}
 					}
+				}
+				if sc.threads == 24 {
+					want = "" // four records; per-thread outcomes are what is compared
 				}
 				if want != "" && audit != want {
 					report("audit-records-differ", fmt.Sprintf("audit records under this schedule:\n%s\n--- alone:\n%s", audit, want))
